@@ -22,6 +22,7 @@ GEN = os.path.join(os.path.dirname(HERE), "lean", "KojenVerif", "Generated")
 
 TEMPLATE_DIRS = [
     ("smCpp", "statemachine_templates_embedded_arm"),
+    ("smCppBoost", "statemachine_templates_pc_boost"),
     ("smCs", "statemachine_templates_cs_winlinmac"),
     ("smPy", "statemachine_templates_py"),
     ("protoCpp", os.path.join("protocol_templates", "CPP")),
@@ -34,8 +35,12 @@ def lean_str(s):
     return "[" + ",".join(str(ord(ch)) for ch in s) + "]"
 
 
-def lean_lines(lines):
-    return "[" + ",\n    ".join(lean_str(l) for l in lines) + "]"
+def lean_lines(lines, chunk=120):
+    """a list literal; long lists as a concatenation of chunks (one literal of several hundred elements exceeds the
+    elaborator's recursion depth)"""
+    if len(lines) <= chunk:
+        return "[" + ",\n    ".join(lean_str(l) for l in lines) + "]"
+    return "(" + " ++\n    ".join("[" + ",\n    ".join(lean_str(l) for l in lines[i:i + chunk]) + "]" for i in range(0, len(lines), chunk)) + ")"
 
 
 def read_lines(path):
@@ -322,6 +327,7 @@ def main():
         fnames = []
         for i, (fn, lines) in enumerate(files):
             dn = "%s_%d" % (ident, i)
+            tl.append("set_option maxRecDepth 100000 in")
             tl.append("/-- %s/%s -/" % (rel, fn))
             tl.append("def %s : Str × List Str := (%s,\n   %s)" % (dn, lean_str(fn), lean_lines(lines)))
             tl.append("")
